@@ -166,7 +166,11 @@ def execute(case):
         exp_R = rx + ys["R"][1:]
         ck.nontrivial = big or any(r > 1 for r in ys["R"])
     elif op == "kron_none":
-        res = lib(lambda: x ** None)
+        if xs["seed"] % 2:
+            res = lib(lambda: None ** x)          # __rpow__: "If None is provided as input the result is the other tensor"
+            ck.label("rpow_none")
+        else:
+            res = lib(lambda: x ** None)
         ref, ref_abs, exp_R = xd, xa, rx
         ck.nontrivial = big and d >= 2
     elif op in ("neg", "pos"):
